@@ -161,3 +161,27 @@ package secec
 //@   ensures len(hash) < 32 ==> result0 == nil && result1 != nil
 //@   ensures len(hash) >= 32 ==> result1 == nil && val(result0) == fn(os2ip(hash[0:32]))
 //@   fresh result0
+//@
+//@ func verify
+//@   props C07 C08
+//@   split nil d
+//@   requires isnil(d) ==> !isnil(q)
+//@   split case val(r) != 0 && val(s) != 0 && len(hBytes) >= 32
+//@   ensures isnil(d) ==> ((result == nil) <==> (val(r) != 0 && val(s) != 0 && len(hBytes) >= 32 && ecdsa_R(fn(os2ip(hBytes[0:32])), val(r), val(s), abs(q.point)) != O && fn(lift(affx(ecdsa_R(fn(os2ip(hBytes[0:32])), val(r), val(s), abs(q.point))))) == val(r)))
+//@   ensures !isnil(d) ==> ((result == nil) <==> (val(r) != 0 && val(s) != 0 && len(hBytes) >= 32 && ecdsa_R(fn(os2ip(hBytes[0:32])), val(r), val(s), smul(val(d.scalar), G)) != O && fn(lift(affx(ecdsa_R(fn(os2ip(hBytes[0:32])), val(r), val(s), smul(val(d.scalar), G))))) == val(r)))
+//@
+//@ func (*PublicKey).VerifyRaw
+//@   props C07
+//@   ensures result <==> (val(r) != 0 && val(s) != 0 && len(digest) >= 32 && ecdsa_R(fn(os2ip(digest[0:32])), val(r), val(s), abs(k.point)) != O && fn(lift(affx(ecdsa_R(fn(os2ip(digest[0:32])), val(r), val(s), abs(k.point))))) == val(r))
+//@
+//@ func RecoverPublicKey
+//@   props C11 C07
+//@   split cond (recoveryID / 2) % 2 == 1
+//@   split case val(r) != 0 && val(s) != 0
+//@   split case recoveryID < 4 && recx(val(r), recoveryID) < P && issq(pow(atom(fp(recx(val(r), recoveryID))), 3) + 7)
+//@   split case len(digest) >= 32
+//@   split case ecdsa_recQ(fn(os2ip(digest[0:32])), val(r), val(s), ptxy(atom(fp(recx(val(r), recoveryID))), recoveryID % 2)) == O
+//@   ensures (result1 == nil) <==> (val(r) != 0 && val(s) != 0 && len(digest) >= 32 && recoveryID < 4 && recx(val(r), recoveryID) < P && issq(pow(atom(fp(recx(val(r), recoveryID))), 3) + 7) && ecdsa_recQ(fn(os2ip(digest[0:32])), val(r), val(s), ptxy(atom(fp(recx(val(r), recoveryID))), recoveryID % 2)) != O)
+//@   ensures (result1 == nil) ==> abs(result0.point) == ecdsa_recQ(fn(os2ip(digest[0:32])), val(r), val(s), ptxy(atom(fp(recx(val(r), recoveryID))), recoveryID % 2))
+//@   ensures (result1 != nil) ==> result0 == nil
+//@   fresh result0
